@@ -43,7 +43,7 @@ Definition seq_result (h : hstate) (r : region) : hstate * hres :=
     let fl := compute_flags r origin in
     if negb (f_kv fl) && negb (f_cache fl) && negb (f_new fl) then (h, HOk)
     else if f_cache fl then
-      let '(c', ov) := set_region (h_cache h) r in
+      let '(c', ov) := put_region (h_cache h) r in
       (HState c' (fold_left apply_sop (store_ops ov r fl) (h_store h)) (h_threads h), HOk)
     else (HState (h_cache h) (fold_left apply_sop (store_ops [] r fl) (h_store h)) (h_threads h), HOk).
 
@@ -51,9 +51,9 @@ Lemma store_ops_len ov r fl : (length (store_ops ov r fl) <= S (length ov))%nat.
 Proof. unfold store_ops. rewrite app_length, map_length. destruct (f_kv fl); cbn; lia. Qed.
 
 Lemma set_region_ov_len c r : Inv c -> wf_region r = true ->
-  (length (snd (set_region c r)) <= length (items (tree c)))%nat.
+  (length (snd (put_region c r)) <= length (items (tree c)))%nat.
 Proof.
-  intros I W. destruct (Inv_set c r I W) as (_ & _ & E). rewrite E. unfold displaced, cached.
+  intros I W. destruct (Inv_put c r I W) as (_ & _ & E). rewrite E. unfold displaced, cached.
   clear. induction (items (tree c)) as [|a l IH]; cbn; [lia|]. destruct (_ && _); cbn; lia.
 Qed.
 
@@ -69,7 +69,7 @@ Proof.
   unfold fuel_of. rewrite TG1. rewrite finish_S. unfold step at 1. rewrite TG1. cbn [h_cache h_store h_threads h1].
   destruct (f_cache fl) eqn:FC.
   - rewrite PC. pose proof (set_region_ov_len _ r I W) as OL.
-    destruct (set_region (h_cache h) r) as [c' ov] eqn:SR. cbn [snd] in OL.
+    destruct (put_region (h_cache h) r) as [c' ov] eqn:SR. cbn [snd] in OL.
     pose proof (store_ops_len ov r fl) as SL.
     destruct (store_ops ov r fl) as [|o todo] eqn:SO.
     + cbv beta iota. cbn [fold_left]. rewrite th_del_set, (th_del_none _ _ TG). reflexivity.
@@ -188,12 +188,6 @@ Proof.
       apply (keys_put _ _ _ _ N1) in H as [H|H]; [auto|right; left; exact H].
 Qed.
 
-Lemma flags_kv_cache r origin : f_kv (compute_flags r origin) = true -> f_cache (compute_flags r origin) = true.
-Proof.
-  destruct origin as [o|]; cbn; [|reflexivity]. intros H.
-  apply orb_true_iff in H as [H|H]; [apply orb_true_iff in H as [H|H]|]; rewrite H; rewrite ?orb_true_r; reflexivity.
-Qed.
-
 Lemma fold_dels s ov : store_ok s ->
   let s' := fold_left apply_sop (map SDel ov) s in
   store_ok s' /\ forall id, held s' id <-> (held s id /\ ~ In id (map r_id ov)).
@@ -215,8 +209,8 @@ Proof.
   cbv zeta. set (fl := compute_flags r origin).
   destruct (negb (f_kv fl) && negb (f_cache fl) && negb (f_new fl)); [cbn; split; [exact OK|exact SUB]|].
   destruct (f_cache fl) eqn:FC.
-  - destruct (Inv_set _ r I W) as (I' & ET & EO).
-    destruct (set_region (h_cache h) r) as [c' ov] eqn:SR. cbn [fst snd] in *.
+  - destruct (Inv_put _ r I W) as (I' & ET & EO).
+    destruct (put_region (h_cache h) r) as [c' ov] eqn:SR. cbn [fst snd] in *.
     unfold store_ops. rewrite fold_left_app.
     destruct (fold_dels (h_store h) ov OK) as (A & C).
     set (s1 := fold_left apply_sop (map SDel ov) (h_store h)) in *.
@@ -226,18 +220,18 @@ Proof.
       destruct I as (_ & HR & (_ & _ & _)). destruct I' as (_ & HR' & _).
       apply (regs_rep_get _ _ _ _ HR) in GY as [Hy Ey]. fold (cached (h_cache h)) in Hy.
       destruct (Z.eqb_spec id (r_id r)) as [E|NE].
-      - intros GN. apply (regs_rep_get_none _ _ _ HR' GN r); [|congruence].
+      - intros GN. apply (regs_rep_get_none _ _ _ HR' GN (keep_term (h_cache h) r)); [|rewrite keep_term_id; congruence].
         fold (cached c'). rewrite ET. apply spec_tree_in. left; reflexivity.
       - intros GN. apply (regs_rep_get_none _ _ _ HR' GN y); [|exact Ey].
         fold (cached c'). rewrite ET. apply spec_tree_in. right. split; [exact Hy|].
-        unfold keep. rewrite Ey. replace (id =? r_id r) with false by (symmetry; apply Z.eqb_neq, NE). cbn.
+        rewrite keep_keep_term. unfold keep. rewrite Ey. replace (id =? r_id r) with false by (symmetry; apply Z.eqb_neq, NE). cbn.
         destruct (overlaps y r) eqn:O; [|reflexivity]. exfalso. apply NI. rewrite EO.
         apply in_map_iff. exists y. split; [exact Ey|]. unfold displaced. apply filter_In. split; [exact Hy|].
         rewrite Ey. replace (id =? r_id r) with false by (symmetry; apply Z.eqb_neq, NE). exact O. }
     destruct (f_kv fl); cbn [fold_left h_cache h_store].
     + unfold apply_sop. destruct (save_ok s1 r A) as [A' B']. split; [exact A'|].
       intros id L. apply B' in L as [->|L]; [|apply KEEP, L].
-      destruct I' as (_ & HR' & _). intros GN. apply (regs_rep_get_none _ _ _ HR' GN r); [|reflexivity].
+      destruct I' as (_ & HR' & _). intros GN. apply (regs_rep_get_none _ _ _ HR' GN (keep_term (h_cache h) r)); [|apply keep_term_id].
       fold (cached c'). rewrite ET. apply spec_tree_in. left; reflexivity.
     + split; [exact A|exact KEEP].
   - assert (FK : f_kv fl = false).
@@ -272,7 +266,7 @@ Proof.
   intros I W. unfold seq_result. destruct (precheck (h_cache h) r) as [origin err]. destruct err; [auto|].
   cbv zeta. destruct (negb _ && negb _ && negb _); [auto|].
   destruct (f_cache (compute_flags r origin)); [|auto].
-  destruct (Inv_set _ r I W) as (I' & _ & _). destruct (set_region (h_cache h) r) as [c' ov]. auto.
+  destruct (Inv_put _ r I W) as (I' & _ & _). destruct (put_region (h_cache h) r) as [c' ov]. auto.
 Qed.
 
 Lemma hb_step_fst h r : fst (h_step h (OHb r)) = fst (heartbeat h r).
